@@ -15,21 +15,27 @@ Checked (extra candidates are allowed, omissions are not):
       the query passes through;
   (c) neighborhood(coord, unit=groundDistanceToUnits(d)) returns every feature having a point within d of coord.
 When the grid is not exactly representable (cell size not dyadic, raw float coordinates) a cell membership is only
-demanded if it holds with a clearance of 1e-9 cell from the cell border, so no verdict depends on the last bit; on
-dyadic grids (most cases) the comparison is exact, which makes vertices / queries on borders and corners meaningful."""
+demanded if it holds with a clearance of 1e-9 cell from the cell border, and a neighbour only if it is within
+d*(1-1e-9), so no verdict depends on the last bit; on dyadic grids (about 4 cases in 10) every comparison is exact,
+which makes vertices / queries on borders and corners and distances exactly equal to d meaningful.
+
+Defect class met on the tree (margin 0 only): a segment lying ON the upper / right outer border is registered in no
+cell when (ymax-ymin)/dY rounds to just above the number of rows (resp. columns).  Failures of that class carry the
+token 'outer-border'; the first 12 (24) cases of the generator aim at it."""
 import math
 import random
 from fractions import Fraction as F
 
 ID = "C08"
 BOUND = {
-    "quick": "1500 feature sets (1..6 polylines of 2..6 vertices, track collections and networks, one network edge in 4 "
-             "added after the index is built): 60% on integer/dyadic coordinates with margins {0,1/8,1/4,1/2} and cell "
-             "sizes that keep the grid exact (square and non-square, incl. default resolution on 25/50/100-wide extents), "
-             "40% raw floats with margins in [0,0.3] and arbitrary / default resolution; per set: all cells, <= ~120 point "
+    "quick": "12 margin-0 sets whose features lie on the outer border of the extent (sides of the bounding rectangle, "
+             "non-dyadic cell sizes); 1500 feature sets (1..6 polylines of 2..6 vertices, track collections and networks, one network edge in 4 "
+             "added after the index is built): 60% on integer coordinates with margins {0,1/8,1/4,1/2} and cell sizes "
+             "that mostly keep the grid dyadic/exact (square and non-square, incl. default resolution on 25/50/100-wide "
+             "extents; ~38% of all sets end up exact), 40% raw floats with margins in [0,0.3] and arbitrary / default resolution; per set: all cells, <= ~120 point "
              "queries (vertices, cell corners / edge midpoints / centres, extent corners, random), ~20 segment queries, "
              "3 track queries, 12 points x 9 distances (0 .. grid size) neighbourhood queries",
-    "thorough": "same generator, 40000 feature sets",
+    "thorough": "same generators, 24 border sets + 40000 feature sets",
 }
 RULE = ("case = one feature set + index parameters + a seed from which the query points/segments/distances are derived "
         "once the extent is known; only extents with >= 1 cell per axis (non-degenerate bbox, cell size <= extent, aspect "
@@ -159,8 +165,36 @@ def _one_case(rnd, c):
                 late=late, seed=rnd.randrange(10 ** 9))
 
 
+def _border_case(rnd, c):
+    """Margin 0, features lying on the outer border of the extent (the sides of the bounding rectangle are features),
+    cell sizes that do not divide the extent into dyadic cells."""
+    if c % 2 == 0:
+        W, H = float(rnd.choice([3, 4, 7, 10, 15, 100])), float(rnd.choice([3, 4, 7, 10, 15, 100]))
+        x0, y0 = float(rnd.choice([0, 0, -5, 1000])), float(rnd.choice([0, 0, -5, 1000]))
+    else:
+        W, H = rnd.uniform(1, 1000), rnd.uniform(1, 1000)
+        x0, y0 = rnd.uniform(-1000, 1000), rnd.uniform(-1000, 1000)
+    x1, y1 = x0 + W, y0 + H
+    W, H = x1 - x0, y1 - y0
+    sides = [[[x0, y0], [x1, y0]], [[x1, y0], [x1, y1]], [[x1, y1], [x0, y1]], [[x0, y1], [x0, y0]]]
+    rnd.shuffle(sides)
+    feats = sides[:rnd.randint(2, 4)]
+    # the extent must be the whole rectangle whatever sides were kept
+    feats.append([[x0, y0], [x0 + W / 2, y0 + H / 2], [x1, y1]])
+    if rnd.random() < 0.5:
+        feats.append([[x0, y1], [x0 + W * rnd.random(), y1], [x0 + W * rnd.random(), y0 + H * rnd.random()], [x1, y0 + H * rnd.random()], [x1, y0]])
+    nx, ny = rnd.choice([3, 5, 6, 7, 10, 13, 26, 49]), rnd.choice([3, 5, 6, 7, 10, 13, 26, 49])
+    res = [W / nx, H / ny] if c % 3 else [W / nx * 0.95, H / ny * 0.95]
+    if c % 5 == 4:
+        res = None if 1 / 60.0 < W / H < 60.0 else res
+    return dict(kind="network" if c % 4 == 1 else "tracks", coords="border", feats=feats, resolution=res, margin=0.0,
+                late=False, seed=rnd.randrange(10 ** 9))
+
+
 def cases(tier, seed):
     rnd = random.Random(seed)
+    for c in range(12 if tier == "quick" else 24):
+        yield _border_case(rnd, c)
     n = 1500 if tier == "quick" else 40000
     for c in range(n):
         yield _one_case(rnd, c)
@@ -309,11 +343,19 @@ def check_case(case):
     eps = 0 if exact else EPS
     MUST = must(eps)
 
+    def on_outer_border(k):
+        """Does feature k have a segment (possibly zero-length) lying on the upper / right outer border of the extent?"""
+        f = feats[k]
+        return any(f[m][0] == si.xmax == f[m + 1][0] or f[m][1] == si.ymax == f[m + 1][1] for m in range(len(f) - 1))
+
     def report(what, got, want, why):
         missing = sorted(set(want) - set(got if got is not None else []))
         if missing and len(fails) < 8:
-            fails.append("%s %s: %s returned %r, omits feature(s) %s %s" % (
-                head, grid_txt, what, got if got is None else sorted(got), _sfeat(feats, missing), why))
+            tag = ""
+            if case["margin"] == 0 and all(on_outer_border(k) for k in missing):
+                tag = " [outer-border: the omitted feature has a segment lying on the upper/right border of the margin-0 extent]"
+            fails.append("%s %s: %s returned %r, omits feature(s) %s %s%s" % (
+                head, grid_txt, what, got if got is None else sorted(got), _sfeat(feats, missing), why, tag))
 
     # ---- (a0) every cell holds the features passing through it
     n_eval += 1
@@ -434,7 +476,9 @@ def check_case(case):
         rnd.shuffle(DS)
         for d in DS[:9]:
             n_eval += 1
-            d2 = F(d) ** 2
+            # exact grid: 'within d' is decided exactly (<=).  Inexact grid: the cell of a point lying within an ulp
+            # of a grid line depends on the last bit, so a feature is only demanded when it is within d * (1 - 1e-9).
+            d2 = F(d) ** 2 if exact else (F(d) * (1 - EPS)) ** 2
             want = set(k for k in range(len(feats)) if D2[k] <= d2)
             n_nontrivial += 1 if want else 0
             try:
